@@ -449,7 +449,7 @@ class Cfg:
         g("seqw", [2, 1, 4][t.choose(3, "seqw")])
         g("seg", [8, 1, 2, 3, 5, 16, 64, 200, 1024, None][t.choose(10, "seg")])
         g("mpl_sel", t.choose(8, "mpl_sel"))
-        g("size_sel", t.weighted([4, 2, 2, 2, 2, 2, 3, 2, 1, 1], "size_sel"))
+        g("size_sel", t.weighted([4, 2, 2, 2, 2, 2, 3, 2, 1, 1, 1], "size_sel"))
         g("dst_shape", t.weighted([4, 2, 2, 1], "dst_shape"))
         g("imm_nak", not bool(t.choose(2, "imm_nak")))
         g("ack_s", [1.0, 0.5, 2.0, 3.7][t.choose(4, "ack_s")])
@@ -502,12 +502,14 @@ class Cfg:
         derived = self.mpl - self.hdr_len - 4 - crc
         self.eff_seg = derived if self.seg is None else min(self.seg, derived)
         s = self.eff_seg
-        sizes = [2 * s, s, 1, 0, max(s - 1, 0), s + 1, 3 * s + max(1, s // 2), 7 * s, 12 * s + 1, 10000]
+        # the last entry is the scale entry: more than 64 KiB with long segments, more than 512 segments with short ones
+        sizes = [2 * s, s, 1, 0, max(s - 1, 0), s + 1, 3 * s + max(1, s // 2), 7 * s, 12 * s + 1, 10000, 70001 if s >= 128 else 520 * s + 1]
         self.size = sizes[self.size_sel]
-        if self.size > 12000:
-            self.size = 12000
-        if self.size // max(s, 1) > 300:
-            self.size = 300 * s
+        if self.size_sel != 10:
+            if self.size > 12000:
+                self.size = 12000
+            if self.size // max(s, 1) > 300:
+                self.size = 300 * s
         if self.metadata_only:
             self.size = 0
 
